@@ -446,6 +446,12 @@ def _wrap(v, bits, signed):
     return v
 
 
+def _strip(t):
+    while isinstance(t, tuple) and t and t[0] in ('cast', 'conv', 'idcall', 'copy', 'move') and len(t) > 2 and isinstance(t[2], tuple):
+        t = t[2]
+    return t
+
+
 NUM_FN = re.compile(r'^core::num::<impl (\w+)>::(\w+)$')
 
 
@@ -473,6 +479,18 @@ class Folder:
                 return 0
             r = self.leaf(t)
             return r
+        if k == 'proj' and isinstance(t[2], tuple) and t[2][0] == 'cidx':
+            inner = _strip(t[1])
+            i_ = t[2][1]
+            if inner[0] == 'agg' and inner[1] == 'array' and i_ < len(inner[2]):
+                return self.ev(inner[2][i_])
+            if inner[0] == 'call':
+                m_ = NUM_FN.match(inner[2])
+                if m_ and m_.group(2) in ('to_le_bytes', 'to_be_bytes'):
+                    v_ = self.ev(inner[3][0])
+                    nb = ty_bits(m_.group(1))[0] // 8
+                    v_ &= (1 << (8 * nb)) - 1
+                    return (v_ >> (8 * (i_ if m_.group(2) == 'to_le_bytes' else nb - 1 - i_))) & 0xff
         if k in ('idcall', 'conv'):
             return self.ev(t[2])
         if k == 'refto':
@@ -641,6 +659,14 @@ class Folder:
                     vals.append(self.leaf(a))
             return int((vals[0] == vals[1]) == fn.endswith('::eq'))
         m = NUM_FN.match(fn)
+        if m and m.group(2) in ('from_le_bytes', 'from_be_bytes') and t[3]:
+            arr = _strip(t[3][0])
+            if arr[0] == 'agg' and arr[1] == 'array':
+                bs = [self.ev(x) & 0xff for x in arr[2]]
+                if m.group(2) == 'from_be_bytes':
+                    bs = bs[::-1]
+                return sum(b_ << (8 * i_) for i_, b_ in enumerate(bs))
+            raise Unfoldable(fmt(t)[:60])
         if m:
             ty, meth = m.group(1), m.group(2)
             tb = ty_bits(ty)
